@@ -16,7 +16,10 @@ SPEC = {
              "than one byte; distinct = distinct (stream prefix, length, chunking). Dispatcher half: packets built exactly "
              "as ReadPacket builds them handed to the real SessionManager.HandlePacket on a fresh connection of a full "
              "server stack (all 256 type bytes x {no body, junk, handshake-/tunnel-open-shaped JSON, command packet}; every "
-             "command type x sample bodies; JSON mutations: wrong value types, huge numbers, deep nesting, truncation)"),
+             "command type x sample bodies; JSON mutations: wrong value types, huge numbers, deep nesting, truncation); every "
+             "type byte x 13 tiny bodies plain and as valid gzip members; read-loop half: hostile streams through the real "
+             "BaseAdapter.handleConnection on the same stack (returns, connection closed and forgotten, dispatch count <= "
+             "stream length)"),
     "trusted_base": [
         "Lean 4.33 kernel; axioms propext, Classical.choice, Quot.sound only (audited per theorem on every run)",
         "extractor /verif/extract: MaxPacketBodySize and type predicates regenerated into Gen/*.lean",
